@@ -47,7 +47,7 @@ REQUIRED_THEOREMS = ["reader_eq_spec", "reader_segmentation_invariant", "reader_
                      "ws_close_drain_bounded", "ws_close_drain_idle", "ws_close_drain_recv", "ws_read_data_fits",
                      "ws_reader_no_oob", "ws_reader_final_state",
                      "ws_read_fits", "ws_read_keeps_ok", "ws_read_data_dest_in_bounds", "ws_read_next_frame_terminates",
-                     "ws_close_drain_fits", "ws_close_drain_in_bounds", "ws_close_terminates", "ws_frames_states_ok", "ws_reader_states_ok",
+                     "ws_close_drain_fits", "ws_close_drain_in_bounds", "ws_close_terminates", "ws_close_drain_rounds", "ws_frames_states_ok", "ws_reader_states_ok",
                      "ws_read_closed_cases", "ws_self_close_classified",
                      "ws_close_drain_socket_empty", "ws_close_drain_close_unseen", "ws_close_drain_oversize_stuck",
                      "ws_close_drain_refused_stuck"]
@@ -86,7 +86,7 @@ RUN_KW = {}
 
 
 def harness(ctx):
-    return C.build_harness("stream", C.build_libcoap())
+    return C.build_harness("stream", C.build_libcoap(), wraps=["select"])     # select(): rounds of coap_ws_close's drain loop
 
 
 def hx(b):
@@ -676,11 +676,11 @@ def classify(c):
     if w[0] == "wsclose":
         m = c["model"] or ""
         return "wsclose-%s:%s" % (w[1], "noclose" if "noclose" in m else "recv-close" if "rc=1" in m else
-                                  "drained" if m.endswith("left=0") else "left")
+                                  "drained" if " left=0 " in m else "left")
     if w[0] == "wsself":
         m = c["model"] or ""
         return "wsself-%s:%s" % (w[1], "noself" if "noself" in m else "recv-close" if "rc=1" in m else
-                                 "all-read" if m.endswith("left=0") else "left")
+                                 "all-read" if " left=0 " in m else "left")
     s = c["spec"] or ""
     ncuts = 0 if w[3] == "-" else w[3].count(",") + 1
     if w[0] == "ws":
